@@ -1,6 +1,7 @@
 import PlushModel.Parser
 import PlushModel.Helpers
 import PlushModel.Gen.Operators
+import PlushModel.Gen.Truthy
 /-!
   Model of /repo/compiler.go (the tree-walking evaluator), helper_context.go, partial_helper.go,
   helpers/content, on the value universe of Value.lean. Mirrors the code as it is after the
@@ -102,13 +103,16 @@ def heapView (s : ES) : HeapView := fun a => match s.heap[a]? with | some (.slic
 
 def traceEv (e : String) : EM Unit := modifyS fun s => { s with trace := s.trace.push e }
 
-/-- `isTruthy` (compiler.go:248-267) -/
-def isTruthy : Val → Bool
-  | .nil => false
-  | .bool v => v
-  | .str s => !s.isEmpty
-  | .html s => !s.isEmpty
-  | _ => true          -- no nil pointers in this fragment of the universe
+/-- what `isTruthy`'s nil test / type switch sees of a value (no nil pointers in this fragment) -/
+def Val.tview : Val → Gen.TView
+  | .nil => .nil
+  | .bool v => .bool v
+  | .str s => .string s.isEmpty
+  | .html s => .html s.isEmpty
+  | _ => .other
+
+/-- `isTruthy` (compiler.go): the generated arms applied to the value's view -/
+def isTruthy (v : Val) : Bool := Gen.isTruthyView v.tview
 
 /-- Go `==` on two interface values when at least one is nil -/
 def bothNil (l r : Val) : Bool := l.isNil && r.isNil
@@ -515,7 +519,7 @@ def evalFor : Nat → Bytes → Bytes → Option Expr → Option Block → EM Va
         | .map _ _ addr => do
             let es ← heapMap addr
             forItems fuel key val block es []
-        | .iter pos end_ => forRanger fuel key val block pos end_ 0 []
+        | .iter pos end_ done => forRanger fuel key val block { pos := pos, end_ := end_, done := done } 0 []
         | .giter groups => forItems fuel key val block (groups.zipIdx.map fun (v, i) => (Val.int i, v)) []
         | _ => fail "could-not-iterate")
     setCur octx
@@ -536,19 +540,19 @@ def forItems : Nat → Bytes → Bytes → Block → List (Val × Val) → List 
     | .brk vs => pure (.ilist (ret ++ [.ilist vs]))
     | other => forItems fuel key val block rest (ret ++ [other])
 
-def forRanger : Nat → Bytes → Bytes → Block → Int → Int → Nat → List Val → EM Val
-  | 0, _, _, _, _, _, _, _ => fatal .outOfFuel
-  | fuel+1, key, val, block, pos, end_, i, ret => do
-    match rangerNext pos end_ with
-    | none => pure (.ilist ret)
-    | some (pos', x) =>
+def forRanger : Nat → Bytes → Bytes → Block → Gen.Ranger → Nat → List Val → EM Val
+  | 0, _, _, _, _, _, _ => fatal .outOfFuel
+  | fuel+1, key, val, block, rg, i, ret => do
+    match Gen.Helpers.next rg with
+    | (_, none) => pure (.ilist ret)
+    | (rg', some x) =>
       ctxSet key (.int i)
       ctxSet val (.int x)
       let res ← evalBlock fuel block
       match res with
-      | .cont vs => forRanger fuel key val block pos' end_ (i + 1) (ret ++ [.ilist vs])
+      | .cont vs => forRanger fuel key val block rg' (i + 1) (ret ++ [.ilist vs])
       | .brk vs => pure (.ilist (ret ++ [.ilist vs]))
-      | other => forRanger fuel key val block pos' end_ (i + 1) (ret ++ [other])
+      | other => forRanger fuel key val block rg' (i + 1) (ret ++ [other])
 
 /-- `evalIndexExpression` / `evalAccessIndex` / `evalUpdateIndex` -/
 def evalIndex : Nat → Option Expr → Option Expr → Option Expr → Option Expr → EM Val
@@ -749,9 +753,9 @@ def callHelper : Nat → String → List Val → EM Val
         | .ilist vs => pure (.int vs.length)
         | .map _ _ a => do pure (.int (← heapMap a).length)
         | _ => fatal (.crash "meta.Len")
-    | "range", [.int a, .int c] => pure (.iter (wrap64 (a - 1)) c)
-    | "between", [.int a, .int c] => pure (.iter a (wrap64 (c - 1)))
-    | "until", [.int a] => pure (.iter (-1) (wrap64 (a - 1)))
+    | "range", [.int a, .int c] => let r := Gen.Helpers.Range a c; pure (.iter r.pos r.end_ r.done)
+    | "between", [.int a, .int c] => let r := Gen.Helpers.Between a c; pure (.iter r.pos r.end_ r.done)
+    | "until", [.int a] => let r := Gen.Helpers.Until a; pure (.iter r.pos r.end_ r.done)
     | "raw", [.str s] => pure (.html s)
     | "html", [.str s] => pure (.html s)
     | "jsEscape", [.str s] =>
